@@ -19,7 +19,7 @@ import (
 )
 
 type c01Op struct {
-	Kind string `json:"k"` // sub cancel relay unrelay connect disconnect resub wait
+	Kind string `json:"k"` // sub cancel relay unrelay connect disconnect resub wait flap
 	A    int    `json:"a"`
 	B    int    `json:"b,omitempty"`
 	Ms   int    `json:"ms,omitempty"`
@@ -296,7 +296,7 @@ func c01Gen(rt *rapid.T) c01Case {
 	for k := 0; k < rapid.IntRange(0, 2).Draw(rt, "rounds"); k++ {
 		var r c01Round
 		for i := 0; i < rapid.IntRange(1, 6).Draw(rt, "nchurn"); i++ {
-			op := c01Op{Kind: rapid.SampledFrom([]string{"sub", "cancel", "cancel", "resub", "relay", "unrelay", "connect", "disconnect", "disconnect", "wait"}).Draw(rt, "churn"),
+			op := c01Op{Kind: rapid.SampledFrom([]string{"sub", "cancel", "cancel", "resub", "relay", "unrelay", "connect", "disconnect", "disconnect", "wait", "flap"}).Draw(rt, "churn"),
 				A: rapid.IntRange(0, c.N-1).Draw(rt, "a"), B: rapid.IntRange(0, c.N-1).Draw(rt, "b")}
 			switch op.Kind {
 			case "wait":
@@ -309,6 +309,12 @@ func c01Gen(rt *rapid.T) c01Case {
 				if st.subs[op.A] == 0 {
 					continue
 				}
+			case "flap":
+				// an existing link goes down and comes back several times in a row (it stays part of the overlay)
+				if !st.edge[c01E(op.A, op.B)] {
+					continue
+				}
+				op.Ms = rapid.IntRange(1, 7).Draw(rt, "flaps")
 			}
 			emit(&r, op)
 		}
@@ -436,6 +442,19 @@ func c01RunInBubble(t *testing.T, c c01Case, res *vfResult) {
 				}
 			case "wait":
 				s.wait(time.Duration(op.Ms) * time.Millisecond)
+			case "flap":
+				if st.edge[c01E(op.A, op.B)] {
+					for k := 0; k < op.Ms; k++ {
+						s.disconnect(op.A, op.B)
+						s.wait(400 * time.Millisecond)
+						if err := s.connect(op.A, op.B); err != nil {
+							res.Inconclusive = fmt.Sprintf("connect: %v", err)
+							return
+						}
+						s.wait(600 * time.Millisecond)
+					}
+					res.label("link-flapped")
+				}
 			}
 			st.apply(op)
 			if ri > 0 && op.Kind != "wait" {
